@@ -24,7 +24,7 @@ ASSUMPTIONS = ['label vectors: labels 0..K-1 in temporal order, every label pres
 REQUIRED_CLASSES = ['stat:has-gap', 'stat:two-cycles', 'stat:cycle-resumes-after-gap', 'align:run', 'bin:empty-bin', 'bin:last-bin-used']
 EXPECTED_LABELS = ['stat-never-raises', 'stat-per-cycle', 'stat-samples-projection', 'align-never-raises', 'align-linear-exact',
                    'bin-never-raises', 'bin-means']
-BUDGET_S = {'quick': 150, 'thorough': 1200}
+BUDGET_S = {'quick': 150, 'thorough': 900}
 TWO_PI = 2 * math.pi
 
 FUNCS = {
